@@ -373,8 +373,10 @@ Section Family.
     cbn [andb orb]. rewrite HL. cbn [bind]. rewrite Hm. rewrite andb_false_r.
     unfold om_labels_of. rewrite HL. cbn [bind].
     destruct (st_group st) as [g0|].
-    - rewrite Hg. cbn [bind om_mem_sid negb orb]. rewrite orb_true_r. reflexivity.
-    - cbn [bind om_mem_sid negb orb]. rewrite orb_true_r. reflexivity.
+    - rewrite Hg. cbn [bind]. match goal with |- context [if negb ?b then [] else _] => destruct b end;
+        cbn [om_mem_sid negb orb]; rewrite ?orb_true_r; reflexivity.
+    - cbn [bind]. match goal with |- context [if negb ?b then [] else _] => destruct b end;
+        cbn [om_mem_sid negb orb]; rewrite ?orb_true_r; reflexivity.
   Qed.
 
   (* the parser state inside the family, after the samples [done] *)
